@@ -25,9 +25,10 @@ Inductive nextv := NextEq | NextGe.
 (* operator-- :
    PrevWrap      if (idx == 0) { idx = size-1; --lap; if (lap<0) valid=false; } else --idx;   cur = l[idx]
    PrevDec       if (idx == 0) { idx = size;   --lap; if (lap<0) valid=false; } --idx;        cur = l[idx]
-                 (FaceHalfEdgeIterImpl, FaceEdgeIterImpl, CellHalfFaceIterImpl)
-   PrevDecEarly  as PrevDec, but "if (lap<0) { valid=false; return; }"  (CellFaceIterImpl) *)
-Inductive prevv := PrevWrap | PrevDec | PrevDecEarly.
+                 (FaceHalfEdgeIterImpl, FaceEdgeIterImpl, CellHalfFaceIterImpl, CellFaceIterImpl)
+   (CellFaceIterImpl used to return early when lap<0, leaving its position at end(); repaired in /repo by
+    "fix: CellFaceIter::operator-- must not leave its position at end()" -- it is the PrevDec form now) *)
+Inductive prevv := PrevWrap | PrevDec.
 (* constructor: "valid(size > 0); if (valid) cur = l[0]" (CtorChecked), or the unconditional
    "cur = l[0]" of FaceHalfEdgeIterImpl / FaceEdgeIterImpl (CtorUnchecked) *)
 Inductive ctorv := CtorChecked | CtorUnchecked.
@@ -78,15 +79,6 @@ Definition c_prev (pv : prevv) (l : list nat) (c : cstate) : option cstate :=
       | 0 => None
       | S j => c_read l j lap v
       end
-  | PrevDecEarly =>
-      if c_idx c =? 0 then
-        let lap := (c_lap c - 1)%Z in
-        if (lap <? 0)%Z then Some (mkC (length l) lap false (c_cur c))   (* early return: hf_iter_ == end() *)
-        else match length l with
-             | 0 => None
-             | S j => c_read l j lap (c_valid c)
-             end
-      else c_read l (c_idx c - 1) (c_lap c) (c_valid c)
   end.
 
 (* TopologyKernel::make_end_circulator *)
